@@ -104,6 +104,15 @@ def scoresOf (rows : List (κ × σ)) (k : κ) : List σ := (rows.filter (·.1 =
 def aggregate (kle : κ → κ → Bool) (o : Ops σ) (rows : List (κ × σ)) : List (κ × σ) :=
   (keys kle rows).map fun k => (k, median o (scoresOf rows k))
 
+/-- the defined scores of a group; `none` stands for a per-batch score that is NaN (a heuristic undefined on that batch) -/
+def definedScores (rows : List (κ × Option σ)) (k : κ) : List σ := (scoresOf rows k).filterMap id
+
+/-- `get_grouped_df` when some per-batch scores are NaN: pandas' `groupby(...).median()` skips them – the median of the defined
+scores of the pair, and NaN (`none`) only for a pair none of whose scores is defined -/
+def aggregateSkip (kle : κ → κ → Bool) (o : Ops σ) (rows : List (κ × Option σ)) : List (κ × Option σ) :=
+  (keys kle rows).map fun k =>
+    (k, if (definedScores rows k).isEmpty then none else some (median o (definedScores rows k)))
+
 /-- task_ranking: `sort_values(by='Score')` (ascending; the model's sort is stable, pandas' need not be) -/
 def finalTable (o : Ops σ) (t : List (κ × σ)) : List (κ × σ) := Srt.isort (fun a b => o.le a.2 b.2) t
 
